@@ -9,10 +9,14 @@ import Uniflow.Generated.Locks
 
 The small-step machine takes every method of `process.Process` as ONE critical section (one
 atomic step under `p.mu`). `Generated/Locks.lean` is regenerated from process.go on every run:
-every method that locks `p.mu` does so at exactly one site. -/
+every method that locks `p.mu` does so at exactly one site – except `Fork`, whose body contains
+its own critical section (`children++`, the model's `forkAdd` step) and the closure of the child's
+wait-done hook (`children--`, the model's `waitDone` hook step, run by the child's Exit). -/
 open Uniflow.Generated.Locks in
 theorem C04.atomic_sections :
-    (acquireSites.filter (fun a => a.1 == "process.Process")).all (fun a => a.2.2.2 == 1) = true ∧
+    (acquireSites.filter (fun a => a.1 == "process.Process" && a.2.1 != "Fork")).all (fun a => a.2.2.2 == 1) = true ∧
+    acquireSites.contains ("process.Process", "Fork", "mu", 2) = true ∧
+    acquireSites.contains ("process.Process", "Join", "mu", 1) = true ∧
     acquireSites.contains ("process.Process", "AddExitHook", "mu", 1) = true ∧
     acquireSites.contains ("process.Process", "Exit", "mu", 1) = true := by
   decide
